@@ -26,6 +26,9 @@ units.UNITS['ClMem'] = clunits.gen_clmem
 units.UNITS['JitMulDiv'] = clunits.gen_jitmuldiv
 units.UNITS['JitMisc'] = clunits.gen_jitmisc
 units.UNITS['JitFrame'] = clunits.gen_jitframe
+units.UNITS['LibWrap'] = clunits.gen_libwrap
+units.UNITS['JitMem'] = clunits.gen_jitmem
+units.UNITS['ApiFx'] = clunits.gen_apifx
 units.UNITS['ClMisc'] = clunits.gen_clmisc
 units.UNITS['JitEnc'] = clunits.gen_jitenc
 units.UNITS['JitArms'] = clunits.gen_jitarms
